@@ -1,6 +1,7 @@
-"""Second family of sparse-kernel units (C08 / C10 / C13): backend::diagonal, backend::scale (inductive),
-spectral_radius (Gershgorin branch), backend::product dispatch, the crs copy/move members, the row-merge
-SpGEMM of amgcl/detail/spgemm.hpp, adapter::unblock_matrix and block_matrix_adapter::row_iterator.
+"""Second family of sparse-kernel units (C08 / C10): backend::diagonal, backend::scale (inductive),
+spectral_radius (Gershgorin branch), backend::product dispatch, the crs copy/move members and allocation
+members, the row-merge SpGEMM of amgcl/detail/spgemm.hpp.
+(adapter::unblock_matrix and block_matrix_adapter::row_iterator are units of c17_adapters2.py.)
 
 inductive / loopfree units carry dfcc contracts (all sizes, counted as proved); unwound units enforce the
 same kind of contract in the harness for ALL inputs up to the stated bound (labelled bounded)."""
@@ -346,7 +347,7 @@ product = Unit(
     assumptions=['A-own: std::make_shared< crs<..> >() is a fresh heap object initialised by the default constructor crs(); shared_ptr reference counting is not modelled',
                  'A-omp: omp_get_max_threads() is an arbitrary positive int (parameter nt); both preprocessor branches (_OPENMP defined / not) are variants',
                  'A-callee: spgemm_saad / spgemm_rmerge are used through their contracts (C = A*B into a default-constructed C; rmerge requires row-sorted B); the contracts are enforced on the real bodies by the bounded units spgemm_saad and spgemm_rmerge',
-                 'A-sorted: product() is only claimed for row-sorted B when more than 16 threads are available (latent precondition: it forwards to spgemm_rmerge without sorting)'],
+                 'A-sorted: product() is only claimed for row-sorted B when more than 16 threads are available (latent precondition: it forwards to spgemm_rmerge without sorting; natively, unsorted duplicate-free B then yields a dense-correct product whose rows contain duplicate columns, unlike the <= 16 thread result)'],
     replay='kernels', timeout=120,
 )
 UNITS += [product]
@@ -1228,9 +1229,98 @@ void h_spgemm_rmerge(void)
     replay='kernels', timeout=300,
     witness=wit('A', 'B') + ['w_nt', 'w_tid'],
     not_decided=['B with repeated columns in a row (sorted but not strictly): the result then has duplicate columns; outside the stated precondition',
-                 'B with unsorted rows: the row-merge algorithm is wrong there by design (product() forwards unsorted operands to it when more than 16 threads are available: stated as a precondition of unit builtin_product_dispatch)'],
+                 'B with unsorted rows: not under contract.  Native experiment: A = [1 1], B rows {2:1,1:1},{1:1,2:1}: spgemm_rmerge gives the row {1:1, 2:2, 1:1} (dense-correct, duplicate column) where spgemm_saad gives {2:2, 1:2}; product() forwards unsorted operands to spgemm_rmerge when more than 16 threads are available (stated as a precondition of unit builtin_product_dispatch)'],
 )
 spgemm_rmerge.cover_exempt = r'set_size\.1$|^set_nonzeros0\.'      # set_size(n, m) with default clean_ptr=false; set_nonzeros() is not called
 spgemm_rmerge.unwindset = [(r'for\s*\(\s*int i = 0; i < \(\(Idx\)', 'NMAX+1'), (r'for\s*\(\s*Idx i\b', 'NMAX+1'), (r'for\s*\(\s*Idx j\b', 'ZMAX+1'),
                            (r'for\s*\(\s*int i = 0; i < nthreads', '3'), (r'for\s*\(\s*ptrdiff_t i\b', 'NMAX+2')]
 UNITS += [spgemm_rmerge]
+# scratch overruns of the real code are heap overflows inside std::vector: only visible to the native replay under ASan
+spgemm_rmerge.replay_asan = True
+
+# ==========================================================================================
+# 3b. spectral_radius<scale>(A, power_iters <= 0), inductive: for every n the value returned is the Gershgorin fold, stated with
+#     ghost sequences defined by recurrence (row sums S, running maximum E) -- the recipe of builtin_spmv / inner_product
+# ==========================================================================================
+GERSH_OUTER = '''
+__CPROVER_assigns(i, emax, dia)
+__CPROVER_loop_invariant(0 <= i && i <= n && emax == g_E[i])
+__CPROVER_decreases(n - i)
+'''
+GERSH_INNER = '''
+__CPROVER_assigns(j, s, dia)
+__CPROVER_loop_invariant(A.ptr[i] <= j && j <= e && e == A.ptr[i + 1] && 0 <= A.ptr[i] && e <= nnz)
+__CPROVER_loop_invariant(s == (j == A.ptr[i] ? Z0 : g_S[j - 1]))
+__CPROVER_loop_invariant((scale && j > g_dp[i]) ==> dia == A.val[g_dp[i]])
+__CPROVER_decreases(e - j)
+'''
+gershgorin_ind = Unit(
+    name='builtin_spectral_radius_gershgorin_inductive', props=['C08', 'C10'],
+    functions=['backend::spectral_radius<scale>(const Matrix&, int power_iters) -- branch power_iters <= 0'],
+    desc='Gershgorin estimate for every size: the value returned is max(0, E_n) (2 if that compares below 0) where E_0 = 0, '
+         'E_{i+1} = max(E_i, R_i), R_i = S_i [* norm(inverse(a_ii)) when scale] and S_i = the sum of norm(a_ij) over row i in storage order; '
+         'S and E are ghost sequences defined by these recurrences; A is not modified',
+    cuts={'body': Cut(BUILTIN, r'const ptrdiff_t n = backend::rows\(A\);\s*scalar_type radius;', kind='region',
+                      end=r'\} else \{\s*// Power method\.',
+                      rules=[COMPOUND('s'),
+                             Rule(r'(scalar_type s\s*=[^;]*;)', r'\1 ROW_OK(i); DIAG_OK(i);', None, why='pointwise instantiation of crs_wf and of "row i stores its diagonal at g_dp[i]" at the row read'),
+                             Rule(r'(ptrdiff_t\s+c = )', r'ROWSUM_STEP(i, j); ONE_DIAG(i, j); \1', None,
+                                  why='pointwise instantiation of the recurrence defining the ghost row sums and of "no other entry of the row is on the diagonal"'),
+                             Rule(r'^(\s*)(emax\s*=)', r'\1EMAX_STEP(i); \2', None, why='pointwise instantiation of the recurrence defining the ghost running maximum')],
+                      uf=[UF(r'\b(?:radius|s|emax|dia)\s*=(?!=)\s*(?P<e>[^;]+);', '+')],
+                      loops=[Loop(r'for\(ptrdiff_t i = 0;', GERSH_OUTER, prefix=True), Loop(r'for\(ptrdiff_t j = A\.ptr', GERSH_INNER, prefix=True)]),
+          'ret': Cut(BUILTIN, r'return radius < 0 \?', kind='region', end=r';', end_inclusive=True,
+                     rules=[Rule(r'radius ([<>]=?) (\d+)\b', r'radius \1 LIT\2', None, why='scalar literal -> value token'),
+                            Rule(r'\(\(scalar_type\)\((\d+)\)\)', r'LIT\1', None, why='scalar literal -> value token'),
+                            Cmp(r'radius|LIT\d+', None)])},
+    template=IND_HDR + r'''
+#undef ROW_OK
+#define ROW_OK(i) __CPROVER_assume(0 <= A.ptr[i] && A.ptr[i] <= A.ptr[(i) + 1] && A.ptr[(i) + 1] <= nnz)
+typedef V scalar_type;
+#undef std_max
+#define std_max(a, b) UF_MAX(a, b)
+#define rows(A) ((A).nrows)
+#define LIT0 UF_CONST(0)
+#define LIT2 UF_CONST(2)
+int g_power_branch;
+/* ghost inputs (never assigned).  g_dp[i]: position of THE stored diagonal entry of row i (only meaningful with scale).
+ * g_S[j]: sum of norm(a) over the entries of the row of j up to and including j, in storage order:
+ *           g_S[j] = (j first entry of its row ? 0 : g_S[j-1]) + norm(val[j])
+ * g_E[i]: running maximum:  g_E[0] = 0,  g_E[i+1] = max(g_E[i], R_i),
+ *           R_i = (row i empty ? 0 : g_S[last entry of row i]) [* norm(inverse(val[g_dp[i]])) when scale]
+ * The recurrences are definitions (they have a solution for every matrix) and are instantiated at the iteration that uses them. */
+const V *g_S, *g_E; const ptrdiff_t *g_dp;
+#define ROWSUM_STEP(i, j) __CPROVER_assume(g_S[j] == UF_ADD(((j) == A.ptr[i] ? Z0 : g_S[(j) - 1]), math_norm(A.val[j])))
+#define ROWSUM(i) (A.ptr[i] == A.ptr[(i) + 1] ? Z0 : g_S[A.ptr[(i) + 1] - 1])
+#define EMAX_STEP(i) __CPROVER_assume(g_E[(i) + 1] == UF_MAX(g_E[i], (scale ? UF_MUL(ROWSUM(i), math_norm(math_inverse(A.val[g_dp[i]]))) : ROWSUM(i))))
+#define DIAG_OK(i) __CPROVER_assume(!scale || (A.ptr[i] <= g_dp[i] && g_dp[i] < A.ptr[(i) + 1] && A.col[g_dp[i]] == (i)))
+#define ONE_DIAG(i, j) __CPROVER_assume(!scale || (j) == g_dp[i] || A.col[j] != (i))
+V f_spectral_radius(const crs *A_p, int power_iters, const _Bool scale, ptrdiff_t nnz)
+__CPROVER_requires(0 <= nnz && nnz <= ZMAX && power_iters <= 0 && g_power_branch == 0)
+__CPROVER_requires(__CPROVER_is_fresh(A_p, sizeof(crs)) && A_p->nrows <= NMAX)
+__CPROVER_requires(__CPROVER_is_fresh(A_p->ptr, (A_p->nrows + 1) * sizeof(ptrdiff_t)) && __CPROVER_is_fresh(A_p->col, (nnz + 1) * sizeof(ptrdiff_t)) && __CPROVER_is_fresh(A_p->val, (nnz + 1) * sizeof(V)))
+__CPROVER_requires(__CPROVER_is_fresh(g_S, (nnz + 1) * sizeof(V)) && __CPROVER_is_fresh(g_E, (A_p->nrows + 1) * sizeof(V)) && __CPROVER_is_fresh(g_dp, (A_p->nrows + 1) * sizeof(ptrdiff_t)))
+__CPROVER_requires(g_E[0] == UF_CONST(0))
+__CPROVER_assigns()
+/* C08: the Gershgorin number */
+__CPROVER_ensures(UF_LESS(UF_MAX(UF_CONST(0), g_E[A_p->nrows]), UF_CONST(0)) ? __CPROVER_return_value == UF_CONST(2)
+                                                                             : __CPROVER_return_value == UF_MAX(UF_CONST(0), g_E[A_p->nrows]))
+__CPROVER_ensures(g_power_branch == 0)
+{
+#define A (*A_p)
+  const V Z0 = UF_CONST(0);
+/*@CUT:body@*/
+  } else { g_power_branch = 1; return 0; /* power method: outside this unit (precondition power_iters <= 0) */ }
+/*@CUT:ret@*/
+#undef A
+}
+void h_f_spectral_radius(void) { const crs *A; int p; _Bool sc; ptrdiff_t nnz; f_spectral_radius(A, p, sc, nnz); }
+''',
+    enforce='f_spectral_radius', mode='inductive', model='uf', timeout=300, replay='kernels',
+    assumptions=A_IND + ['A-def: the ghost sequences S (row sums) and E (running maximum) are defined by recurrence and the recurrence is instantiated at the iteration that uses it (ROWSUM_STEP, EMAX_STEP)',
+                         'A-diag: with scale every row stores exactly one diagonal entry (ghost position array g_dp; universally quantified precondition over read-only arrays, instantiated at the row / entry read: DIAG_OK, ONE_DIAG)',
+                         'A-omp: the parallel region is executed by one thread; the reduction of per-thread maxima relies on max being associative and commutative (not expressed by the uninterpreted model)',
+                         'A-inst: Matrix = crs<V, ptrdiff_t, ptrdiff_t>, scalar_type = value_type'],
+    not_decided=['the power-method branch', 'that the Gershgorin value bounds the true spectral radius (Gershgorin\'s theorem about the formula computed)'],
+)
+UNITS += [gershgorin_ind]
